@@ -264,6 +264,18 @@ def walk_stmts(stmts) -> Iterator[ast.AST]:
   return walk_function(fake)
 
 
+# Private helpers that rules are anchored in and that are identified by the
+# public / dunder method delegating to them when their name changes.
+ROLE_ANCHORS = {
+    'fiddle._src.config._buildable_flatten':
+        ('callee-of', 'fiddle._src.config.Buildable.__flatten__'),
+    'fiddle._src.config._buildable_path_elements':
+        ('callee-of', 'fiddle._src.config.Buildable.__path_elements__'),
+    'fiddle._src.config._register_buildable_defaults_aware_traversers':
+        ('callee-of', 'fiddle._src.config.Buildable.__init_subclass__'),
+}
+
+
 class Project:
   """All analysed modules of the repo, with resolution helpers."""
 
@@ -609,6 +621,20 @@ class Project:
     same class name) in the analysed tree has the same bare name, it is the
     anchor.  Imported aliases are followed first.
     """
+    role = ROLE_ANCHORS.get(q)
+    if role is not None and role[0] == 'callee-of':
+      # a private helper known by what delegates to it: the only function of
+      # the analysed tree that the (public / dunder) delegator calls
+      d = self.funcs.get(role[1])
+      if d is not None:
+        callees = []
+        for n in ast.walk(d.node):
+          if isinstance(n, ast.Call):
+            r = self.resolve(n.func, d)
+            if r in self.funcs and r != d.qualname and r not in callees:
+              callees.append(r)
+        if len(callees) == 1:
+          return self.funcs[callees[0]]
     modq, _, name = q.rpartition('.')
     outer = self.funcs.get(modq)
     if outer is None and modq not in self.modules and (
